@@ -146,13 +146,15 @@ def run(ctx):
                                               max_failures=40)
     ctx.traces_validated += accepted
     ctx.stage("validate:buffers", runs=nruns, accepted=accepted, rejected=len(failures))
+    drift = []
     for f in failures:
-        ev = f["event"]
-        pred = [c for c in todo if all(c[k] == ev.get(k) for k in ("tracker", "backend", "kind", "fam", "n"))]
-        if pred and not pred[0]["delivered"] and ev.get("observed") == "reply":
-            raise ToolError("model drift: Buffers.tla predicts an overflow that the real tracker does not have: %s" % ev)
-        report_violation(ctx, "delivery differs from the buffer model: %s" % json.dumps(ev)[:300],
-                         {"event": ev}, {"part": "binding", "tracker": ev.get("tracker"), "kind": ev.get("kind")})
+        # The observed delivery or size differs from what Buffers.tla computes from the MIRRORED constants.
+        # That alone is no verdict on the code (a buffer may have been enlarged, a default changed): it is
+        # recorded as model drift.  The property itself is judged below on what was observed.
+        drift.append(f["event"])
+    if drift:
+        ctx.model_drift = {"note": "observations differ from Buffers.tla's mirrored constants", "events": drift[:10]}
+        log("MODEL-DRIFT (no verdict): %d grid points differ from Buffers.tla, e.g. %s" % (len(drift), json.dumps(drift[0])[:200]))
     # the property: every in-scope worst-case request of an accepted configuration is delivered
     groups = {}
     for r in results.values():
